@@ -207,11 +207,9 @@ impl BsUnit {
 //@   ensures E_ex2: r.is_some() ==> describes(r.unwrap(), self, r.unwrap().pos_in_unit as int) && adr(self, r.unwrap().pos_in_unit as int) == pc.0
 //@   ensures E_ex3: r.is_some() ==> forall|k: int| 0 <= k < r.unwrap().pos_in_unit ==> #[trigger] adr(self, k) != pc.0
 //@   outline O_u64: `u64::from(pc)` => `outline_u64_from_ga(pc)`
-//@   outline O_u64b: `u64::from(next_place.address)` => `outline_u64_from_ga(next_place.address)`
 //@   outline O_bsearch: `self.lines.binary_search_by_key(&pc, |line| line.address)` => `self.outline_bsearch(pc)`
-//@   loop 0 invariant I_ex1: p + 1 < self.lines@.len()
-//@   loop 0 invariant I_ex2: place.is_some() && describes(place.unwrap(), self, p + 1)
-//@   loop 0 invariant I_ex3: adr(self, p + 1) == pc
+//@   loop 0 invariant I_ex1: p < self.lines@.len() && adr(self, p as int) == pc
+//@   proof before `self.find_place_by_idx(p)`: assert(p > 0 ==> adr(self, p - 1) != pc);
 //@   loop 0 decreases: p
 //@ end
 }
